@@ -137,7 +137,7 @@ def o_vmf(y, s, lo=1e-10, hi=500, normalise=True):
         R += s[n] * z[n]
     nrm = math.sqrt(float(np.sum(R * R)))
     mean = R / max(nrm, TINY)
-    rbar = nrm / s.sum()
+    rbar = min(nrm / s.sum(), 1.0)          # the mean resultant length cannot exceed one (fix ed19db2)
     with np.errstate(all='ignore'):
         kappa = np.float64(rbar * D - rbar ** 3) / np.float64(1 - rbar ** 2)
     kappa = min(max(kappa, lo), hi)
@@ -169,7 +169,7 @@ def o_cacg_from_cov(C, norm, floor):
         e = lam / max(lam.max(), TINY)
         e = np.maximum(e, floor)
     else:
-        e = np.maximum(lam, lam.max() * floor)
+        e = np.maximum(lam, max(lam.max() * floor, TINY))      # relative floor, never below tiny (fix 1a7e8cd)
     return e, U
 
 
@@ -241,15 +241,19 @@ def separate(lam, eps=1e-8):
 
 
 # ----------------------------------------------------------------------------- mixture weights
-def o_weight(aff, sal, axes, gc_variant=False):
-    """aff (F, K, N) [or (K, N)], sal (F, N) [or (N,)] or None; `axes` = tuple of tied axes (negative, as
-    passed to the code).  Returns the weight with keepdims shape, or the string 'uniform' when tied over k.
-    gc_variant: formula of the integration models (plain division by the class sum)."""
+def o_weight(aff, sal, wca, gc_variant=False):
+    """aff (F, K, N) [or (K, N)], sal (F, N) [or (N,)] or None; `wca` = weight_constant_axis as passed to the code
+    (int, tuple or list).  Returns the weight with keepdims shape, or the string 'uniform' (= 1/K for every class) when
+    the class axis is tied in the int form (plain models) / anywhere (integration models, gc_variant).
+    Tuple form containing the class axis (plain models): the mean over all tied axes (no saliency), resp. an equal
+    share 1/K of the L1-normalised sum (saliency; 0 where the saliency mass is 0)."""
     aff = np.asarray(aff, dtype=np.float64)
     nd = aff.ndim
+    axes = wca_axes(wca)
     ax = tuple(sorted(a % nd for a in axes))
     K = aff.shape[-2]
-    if (nd - 2) in ax:
+    class_tied = (nd - 2) in ax
+    if class_tied and (gc_variant or isinstance(wca, (int, np.integer))):
         return 'uniform'
     shape = [1 if i in ax else aff.shape[i] for i in range(nd)]
     out = np.zeros(shape)
@@ -269,10 +273,10 @@ def o_weight(aff, sal, axes, gc_variant=False):
         sidx = tuple(0 if sal.shape[i] == 1 else sidx[i] for i in range(sal.ndim))
         out[o] += aff[idx] * sal[sidx]
     if gc_variant:
-        return out / np.sum(out, axis=-2, keepdims=True)
+        return out / np.maximum(np.sum(out, axis=-2, keepdims=True), TINY)     # (fix aae1612)
     nrm = np.sum(np.abs(out), axis=-2, keepdims=True)
     nrm = np.where(nrm == 0, 1e-10, nrm)
-    return out / nrm
+    return out / nrm / (K if class_tied else 1)          # (fix 07e42d1: equal share when tied over the classes)
 
 
 def posterior(weight, lp, eps=0.0):
@@ -407,7 +411,7 @@ class Family:
         raise ValueError(self.name)
 
 
-def em_oracle(fam, y, gamma0, sal, axes, n, eps=0.0, align=None, start=None):
+def em_oracle(fam, y, gamma0, sal, wca, n, eps=0.0, align=None, start=None):
     """n alternations of the oracle M- and E-steps.  y (F, N, D); gamma0 (F, K, N); sal (F, N) or None.
     start: fitted mixture object of the code -> one E-step under it, then one M-step (step-wise form).
     Returns (weight | 'uniform', params[f][k], min alignment decision margin)."""
@@ -436,13 +440,13 @@ def em_oracle(fam, y, gamma0, sal, axes, n, eps=0.0, align=None, start=None):
                 gamma, q2, mg = o_align(gamma, q, align)
                 q = q2
                 margin = min(margin, mg)
-        w = o_weight(gamma, sal, axes)
+        w = o_weight(gamma, sal, wca)
         params = [[fam.mstep(z[f], gamma[f, k] * (1 if sal is None else sal[f]), q[f, k]) for k in range(K)]
                   for f in range(F)]
     return w, params, margin
 
 
-def int_em_oracle(kind, obs, emb, gamma0, sal, axes, n, opt, start=None, normalise_embedding=True):
+def int_em_oracle(kind, obs, emb, gamma0, sal, wca, n, opt, start=None, normalise_embedding=True):
     """integration models (GCACGMM / VMFCACGMM): obs (F, T, D) complex, emb (F, T, E) real, gamma0 (F, K, T).
     Spectral component (Gaussian / vMF) is shared by all bins, the cACG is per bin."""
     F, K, T = gamma0.shape
@@ -462,7 +466,7 @@ def int_em_oracle(kind, obs, emb, gamma0, sal, axes, n, opt, start=None, normali
     if start is not None:
         from pb_bss.utils import unsqueeze
         wv = np.asarray(start.weight, dtype=np.float64)
-        w = 'uniform' if (-2 in axes) else unsqueeze(wv, tuple(axes))
+        w = 'uniform' if (-2 in wca_axes(wca)) else unsqueeze(wv, wca_axes(wca))
         if kind == 'gcacgmm':
             spec = [(start.gaussian.mean[k], start.gaussian.covariance[k]) for k in range(K)]
         else:
@@ -500,7 +504,7 @@ def int_em_oracle(kind, obs, emb, gamma0, sal, axes, n, opt, start=None, normali
             else:
                 gamma = posterior(wb, spatial + spectral, opt['affiliation_eps'])
         masked = gamma * salb[:, None, :]
-        w = o_weight(gamma, salb, axes, gc_variant=True)
+        w = o_weight(gamma, salb, wca, gc_variant=True)
         spec = []
         for k in range(K):
             g = masked[:, k, :].reshape(F * T)
@@ -598,6 +602,25 @@ DEGENERATE = ['zero', 'some-zero', 'duplicated', 'two-points', 'collinear', 'col
 
 
 # ----------------------------------------------------------------------------- domain predicates (C09)
+def class_mass_positive(model, init, saliency):
+    """quantifier of C08 / C09: every class starts with positive (saliency-weighted) mass"""
+    mass = init if saliency is None else init * np.asarray(saliency)[..., None, :]
+    if model in ('gcacgmm', 'vmfcacgmm'):
+        return not (np.any(np.sum(mass, axis=(0, 2)) == 0) or np.any(np.sum(mass, axis=2) == 0))
+    return not np.any(np.sum(mass, axis=-1) == 0)
+
+
+def tied_saliency_positive(shape, saliency, wca):
+    """the saliency sums to a positive value over the tied (non-class) axes for every remaining index"""
+    if saliency is None:
+        return True
+    nd = len(shape)
+    ax = tuple(a % nd for a in wca_axes(wca) if a % nd != nd - 2)
+    s_full = np.broadcast_to(np.asarray(saliency)[..., None, :], shape)
+    tot = np.sum(s_full, axis=ax, keepdims=True) if ax else s_full
+    return not np.any(tot == 0)
+
+
 def finite(*arrs):
     return all(np.all(np.isfinite(np.asarray(a))) for a in arrs)
 
@@ -641,8 +664,8 @@ def check_weight(weight, aff_shape, axes, K, eps, squeezed=False):
     if np.any(np.abs(ssum - 1) > tol):
         if tuple_tied and not squeezed:
             return 'weight-tied-over-classes-tuple', (f'weight_constant_axis={ax_t} ties the weight over the classes; the stored '
-                                                      f'value {w.ravel()[:3]} stands for every class, so the weights sum to '
-                                                      f'{ssum.ravel()[0]} instead of 1 (the int form -2 returns 1/K)')
+                                                      f'value {np.asarray(weight).ravel()[:3]} stands for every class, so the weights sum to '
+                                                      f'{ssum.ravel()[np.argmax(np.abs(ssum - 1))]} instead of 1 (the int form -2 returns 1/K)')
         return 'weight-sum', f'mixture weights sum to {ssum.ravel()[np.argmax(np.abs(ssum - 1))]} over the classes (tolerance {tol:g})'
     return None
 
@@ -655,9 +678,11 @@ def check_cacg(e, U, norm, floor):
     if np.max(np.abs(G - np.eye(D))) > 1e-8:
         return 'cacg-eigenvectors-not-unitary', f'||U^H U - I|| = {np.max(np.abs(G - np.eye(D))):.3g}'
     mx = np.max(e, axis=-1)
+    if np.any(e <= 0):
+        return 'cacg-eigenvalue-not-positive', f'cACG eigenvalue {e.min()} <= 0 (covariance_norm={norm}, floor={floor}): covariance not positive definite'
     # a class whose weighted scatter is exactly zero (all its frames are zero vectors): every eigenvalue is the floor
-    # (eigenvalue normalisation) resp. zero / denormal (trace, no normalisation) -- DESIGN.md section 5, item 10
-    zero_scatter = (mx == floor) & np.all(e == floor, axis=-1) if norm == 'eigenvalue' else (mx < 1e-300)
+    # (eigenvalue normalisation) resp. tiny (trace / no normalisation, fix 1a7e8cd) -- DESIGN.md section 5, item 10
+    zero_scatter = (mx == floor) & np.all(e == floor, axis=-1) if norm == 'eigenvalue' else (mx == TINY)
     if np.any(zero_scatter):
         return 'cacg-zero-scatter', (f'all-zero weighted scatter: every cACG eigenvalue equals {e[zero_scatter].ravel()[0]} '
                                      f'(covariance_norm={norm}, floor={floor}); documented: maximum 1 / unit trace, positive definite')
@@ -821,8 +846,8 @@ def compare_params(model, fields, params, tol, gap_tol=1e-6):
                     return 'gaussian-parameters', f'class {k} bin {f}: mean err {e1:.3g}, covariance err {e2:.3g}'
             elif model == 'vmfmm':
                 e1 = err(fields['mean'][f, k], p[0])
-                # (rbar D - rbar^3)/(1 - rbar^2) is ill-conditioned at rbar = 1 (all weighted directions equal)
-                e2 = err(fields['concentration'][f, k], p[1]) * min(1.0, abs(1 - p[2] ** 2) * 1e3)
+                # (rbar D - rbar^3)/(1 - rbar^2) has condition ~ max_concentration near rbar = 1, then saturates
+                e2 = err(fields['concentration'][f, k], p[1]) * 1e-3
                 if max(e1, e2) > tol:
                     return 'vmf-parameters', f'class {k} bin {f}: mean err {e1:.3g}, concentration err {e2:.3g}'
             elif model == 'cwmm':
@@ -901,3 +926,371 @@ def check_bingham(ev, V, max_concentration):
     if np.any(ev < -max_concentration * (1 + 1e-12)):
         return 'bingham-eigenvalue-below-bound', f'eigenvalue {ev.min()} < -max_concentration = {-max_concentration}'
     return None
+
+
+# ----------------------------------------------------------------------------- correspondence: Lean model (driver) vs code
+def _close(a, b, tol=1e-9):
+    return err(a, b) <= tol
+
+
+def corr_trainers(ctx, degenerate=False):
+    """every M-step formula of the Lean model (lean/PbBss/Model/Trainers.lean, run by `driver_trainers` on Float)
+    against the real trainers on the same inputs.  degenerate=True draws the data from the degenerate stream."""
+    from pb_bss import distribution as dist
+    from pb_bss.distribution import mixture_model_utils as mmu
+    from pb_bss.distribution import complex_bingham as cb
+    from .lean import cbits, fbits, parse_complex, parse_floats, parse_ints, run_driver
+    rng = ctx.rng
+    exe = 'driver_trainers'
+    lines, metas = [], []
+
+    def data(N, D, cplx):
+        if degenerate:
+            kind = str(rng.choice(DEGENERATE))
+            return degenerate_data(rng, kind, N, D, cplx), kind
+        return (gen_complex(rng, (N, D)) if cplx else gen_real(rng, (N, D))), 'regular'
+
+    def sal_for(N):
+        s, kind = gen_saliency(rng, (N,), str(rng.choice(['none', 'uniform', 'sparse', 'integer'])))
+        return s, kind
+
+    def salbits(s, N):
+        return f'{0 if s is None else 1} ', fbits(np.zeros(N) if s is None else s)
+
+    n_cases = ctx.n(160, 1200)
+    for i in range(n_cases):
+        D = int(rng.integers(1, 5))
+        N = int(rng.integers(1, 9)) if degenerate else int(rng.integers(D + 1, D + 8))
+        # --- Gaussian
+        y, kind = data(N, D, False)
+        s, sk = sal_for(N)
+        ty = i % 3
+        h, sb = salbits(s, N)
+        lines.append(f'gauss {ty} {N} {D} {h}{sb} {fbits(y)}')
+        metas.append(('gauss', dict(y=y, s=s, ty=ty)))
+        ctx.count(f'corr-gauss-{["full", "diagonal", "spherical"][ty]}-{kind}-sal:{sk}')
+        # --- complex Gaussian
+        yc, kind = data(N, D, True)
+        lines.append(f'cgauss {N} {D} {h}{sb} {cbits(yc)}')
+        metas.append(('cgauss', dict(y=yc, s=s)))
+        # --- vMF
+        D2 = max(D, 2)
+        yv, kind = data(N, D2, False)
+        lo, hi = [(1e-10, 500.0), (1e-3, 50.0), (0.5, 5.0)][int(rng.integers(3))]
+        lines.append(f'vmf {N} {D2} {h}{fbits([lo, hi])} {sb} {fbits(yv)}')
+        metas.append(('vmf', dict(y=yv, s=s, lo=lo, hi=hi)))
+        ctx.count(f'corr-vmf-{kind}')
+        # --- Watson (spline value = external, taken from the real trainer's table at the code's own top eigenvalue)
+        yw, kind = data(N, D2, True)
+        mc = float(rng.choice([500, 100, 20]))
+        tr = dist.ComplexWatsonTrainer(max_concentration=mc)
+        try:
+            mw = tr.fit(yw.copy(), saliency=None if s is None else s.copy())
+            z = unit_rows(yw)
+            S = o_scatter(z, s)
+            lam_code = float(np.linalg.eigvalsh(S)[-1])
+            if np.isfinite(lam_code) and finite(mw.mode, mw.concentration):
+                _, ylo, yhi = watson_inverse_table(D2, mc, 1000)
+                spl = float(tr.hypergeometric_ratio_inverse(lam_code))
+                lines.append(f'watson {N} {D2} {h}{fbits([ylo, yhi, mc, spl])} {sb} {cbits(yw)}')
+                metas.append(('watson', dict(y=yw, s=s, m=mw, S=S, lam=lam_code, ylo=ylo, yhi=yhi)))
+                ctx.count(f'corr-watson-{kind}')
+        except ALLOWED_EXC:
+            ctx.count('corr-watson-rejected')
+        # --- cACG: weighted single step, whole fit, eigenvalue post-processing
+        N3 = int(rng.integers(1, 9)) if degenerate else int(rng.integers(D2 + 1, D2 + 8))
+        yz, kind = data(N3, D2, True)
+        z = unit_rows_where(yz)
+        herm_ = int(rng.random() < 0.7)
+        norm = int(rng.integers(3))
+        floor = float(rng.choice([1e-10, 1e-6, 1e-2]))
+        q = rng.random(N3) + 0.05
+        if degenerate and rng.random() < 0.3:
+            q[rng.integers(N3)] = 0.0
+        s3, sk3 = gen_saliency(rng, (N3,), str(rng.choice(['none', 'uniform', 'sparse', 'integer'])))
+        h3, sb3 = salbits(s3, N3)
+        lines.append(f'cacgstep {herm_} {norm} {N3} {D2} {h3}{fbits([floor])} {sb3} {fbits(q)} {cbits(z)}')
+        metas.append(('cacgstep', dict(z=z, s=s3, q=q, herm=herm_, norm=norm, floor=floor)))
+        its = int(rng.integers(1, 6))
+        lines.append(f'cacgfit {herm_} {norm} {N3} {D2} {its} {fbits([floor])} {cbits(yz)}')
+        metas.append(('cacgfit', dict(y=yz, its=its, herm=herm_, norm=norm, floor=floor)))
+        ctx.count(f'corr-cacg-{["eigenvalue", "trace", "none"][norm]}-{kind}')
+        lam = np.sort(rng.random(D2) * float(rng.choice([1.0, 1e-3, 1e3])))
+        if rng.random() < 0.3:
+            lam[:] = 0.0                                      # all-zero scatter
+        elif rng.random() < 0.3:
+            lam[0] = -1e-17
+        nm = int(rng.integers(2)) * 2                         # 0 eigenvalue, 2 none
+        lines.append(f'cacgeigs {nm} {D2} {fbits([floor])} {fbits(lam)}')
+        metas.append(('cacgeigs', dict(lam=lam, norm=nm, floor=floor)))
+        # --- Bingham: de-duplication and the tail of find_eigenvalues_v3 (solver output recorded from the real call)
+        Db = int(rng.integers(2, 6))
+        lam_b = np.sort(rng.random(Db))
+        if rng.random() < 0.4:
+            lam_b[1] = lam_b[0]
+        eps_b = float(rng.choice([1e-8, 1e-3]))
+        lines.append(f'removedup {Db} {fbits([eps_b])} {fbits(lam_b)}')
+        metas.append(('removedup', dict(lam=lam_b, eps=eps_b)))
+        sc = np.sort(rng.dirichlet(np.ones(Db) * float(rng.choice([0.3, 1.0, 5.0]))))
+        mcb = float(rng.choice([np.inf, np.inf, 200.0, 20.0, 5.0]))
+        rec = {}
+        orig = cb.least_squares
+
+        def spy(*a_, **k_):
+            r = orig(*a_, **k_)
+            rec['x'] = np.array(r.x, dtype=np.float64)
+            return r
+        cb.least_squares = spy
+        try:
+            est = cb.ComplexBinghamTrainer.find_eigenvalues_v3(sc.copy(), eps=1e-8, max_concentration=mcb)
+        except ALLOWED_EXC:
+            est = None
+        finally:
+            cb.least_squares = orig
+        if est is not None and 'x' in rec and np.all(np.diff(sc) > 0):
+            hm = 0 if np.isinf(mcb) else 1
+            lines.append(f'bingham {Db} {hm} {fbits([0.0 if np.isinf(mcb) else mcb, 1e-8])} {fbits(rec["x"])}')
+            metas.append(('bingham', dict(est=np.asarray(est), x=rec['x'], maxc=mcb)))
+            ctx.count(f'corr-bingham-max{mcb}')
+        # --- mixture weights
+        F, K, T = int(rng.integers(1, 4)), int(rng.integers(1, 5)), int(rng.integers(1, 7))
+        aff = gen_affiliation(rng, F, K, T, hard=rng.random() < (0.5 if degenerate else 0.2))
+        if rng.random() < 0.3:
+            aff = np.clip(aff, 1e-3, 1 - 1e-3)
+        sw = rng.random((F, T)) + 1e-3
+        if degenerate and rng.random() < 0.5:
+            sw = sw * (rng.random((F, T)) < 0.5)
+        v = int(rng.integers(10))
+        lines.append(f'weight {v} {F} {K} {T} {fbits(aff)} {fbits(sw)}')
+        metas.append(('weight', dict(v=v, aff=aff, s=sw)))
+        ctx.count(f'corr-weight-variant{v}')
+        # --- E-step of the cACG mixture (posterior with clipping + quadratic forms) under a fitted model of the code
+        Ke, Ne, De = int(rng.integers(2, 4)), int(rng.integers(1, 7)), int(rng.integers(2, 5))
+        ye, kind = data(max(Ne, De + 1) if not degenerate else Ne, De, True)
+        Ne = ye.shape[0]
+        g0 = gen_affiliation(rng, 1, Ke, Ne, hard=degenerate and rng.random() < 0.5)[0]
+        eps_e = float(rng.choice([0.0, 1e-10, 1e-3]))
+        try:
+            me = dist.CACGMMTrainer().fit(ye.copy(), initialization=g0.copy(), iterations=int(rng.integers(1, 4)),
+                                          weight_constant_axis=(-1,) if rng.random() < 0.7 else -2,
+                                          eigenvalue_floor=float(rng.choice([1e-10, 1e-6, 1e-2])),
+                                          covariance_norm=['eigenvalue', 'trace', False][int(rng.integers(3))])
+            ze = unit_rows_where(ye)
+            if finite(me.weight, me.cacg.covariance_eigenvalues, me.cacg.covariance_eigenvectors):
+                wfull = np.broadcast_to(np.asarray(me.weight, dtype=np.float64), (Ke, Ne))
+                lines.append(f'cacgmmestep {Ke} {Ne} {De} {fbits([eps_e])} {fbits(wfull)} '
+                             f'{fbits(me.cacg.covariance_eigenvalues)} {cbits(me.cacg.covariance_eigenvectors)} {cbits(ze)}')
+                metas.append(('cacgmmestep', dict(model=me, z=ze, eps=eps_e)))
+                ctx.count(f'corr-cacgmmestep-{kind}-eps{eps_e}')
+        except ALLOWED_EXC:
+            ctx.count('corr-cacgmmestep-rejected')
+    for n in range(1, 9):
+        lines.append(f'emtrace {n}')
+        metas.append(('emtrace', dict(n=n)))
+    out = run_driver(lines, exe=exe)
+    for (op, d), o in zip(metas, out):
+        try:
+            ok, detail = _corr_one(op, d, o, dist, mmu, cb, parse_floats, parse_complex, parse_ints)
+        except ALLOWED_EXC as e:
+            ctx.count(f'corr-{op}-rejected:{type(e).__name__}')
+            continue
+        if ok is None:
+            ctx.count(f'corr-{op}-skipped:{detail}')
+            continue
+        ctx.corr(op, ok, detail, {k: v for k, v in d.items() if isinstance(v, (np.ndarray, int, float, str, type(None)))})
+    ctx.sample({'op': 'corr', 'ops': sorted(set(m[0] for m in metas)), 'lines': len(lines), 'degenerate': degenerate})
+
+
+def _corr_one(op, d, o, dist, mmu, cb, parse_floats, parse_complex, parse_ints):
+    cp = lambda a: None if a is None else np.array(a)  # noqa: E731
+    if op == 'gauss':
+        ct = ['full', 'diagonal', 'spherical'][d['ty']]
+        m = dist.GaussianTrainer().fit(cp(d['y']), saliency=cp(d['s']), covariance_type=ct)
+        got = parse_floats(o)
+        D = d['y'].shape[1]
+        want = np.concatenate([np.ravel(m.mean), np.ravel(m.covariance)])
+        return _close(got, want), f'gauss {ct}: model {got[:4]} code {want[:4]} err {err(got, want):.3g}'
+    if op == 'cgauss':
+        m = dist.ComplexCircularSymmetricGaussianTrainer().fit(cp(d['y']), saliency=cp(d['s']))
+        got = parse_complex(o)
+        return _close(got, np.ravel(m.covariance)), f'cgauss err {err(got, np.ravel(m.covariance)):.3g}'
+    if op == 'vmf':
+        m = dist.VonMisesFisherTrainer().fit(cp(d['y']), saliency=cp(d['s']), min_concentration=d['lo'], max_concentration=d['hi'])
+        got = parse_floats(o)
+        want = np.concatenate([np.ravel(m.mean), [float(m.concentration)]])
+        if not finite(want):
+            return None, 'code-not-finite'
+        e1 = err(got[:-1], want[:-1])
+        # the concentration is discontinuous where r_bar rounds to 1 (saturation): judged with the decision margin
+        _, _, rbar = o_vmf(d['y'], d['s'], d['lo'], d['hi'])
+        # condition of the Banerjee quotient <= ~max_concentration before the clip saturates; with r_bar clamped to 1
+        # (fix ed19db2) a collinear class saturates at max on both sides, so no rounding tie remains
+        e2 = err(got[-1], want[-1]) * 1e-3
+        return max(e1, e2) <= 1e-9, f'vmf model {got} code {want} (rbar {rbar})'
+    if op == 'watson':
+        got = parse_floats(o)
+        D = d['y'].shape[1]
+        mode = got[:2 * D].view(np.complex128)
+        lam, conc = got[2 * D], got[2 * D + 1]
+        m = d['m']
+        ok_l = abs(lam - d['lam']) <= 1e-9
+        ok_c = err(conc, float(m.concentration)) <= 1e-7 or min(abs(d['lam'] - d['ylo']), abs(d['lam'] - d['yhi'])) < 1e-9
+        ev = np.linalg.eigvalsh(herm(d['S']))
+        gap = ev[-1] - ev[-2] if len(ev) > 1 else 1.0
+        if gap < 1e-6:
+            return (ok_l and ok_c), f'watson (degenerate top eigenvalue: mode not compared) lam {lam} vs {d["lam"]}, conc {conc} vs {m.concentration}'
+        ok_m = err(proj(mode), proj(np.asarray(m.mode))) <= 1e-9 / min(gap, 1.0)
+        return (ok_l and ok_c and ok_m), f'watson lam {lam} vs {d["lam"]}, conc {conc} vs {m.concentration}, mode-projector err {err(proj(mode), proj(np.asarray(m.mode))):.3g}'
+    if op in ('cacgstep', 'cacgfit'):
+        norm = ['eigenvalue', 'trace', False][d['norm']]
+        if op == 'cacgstep':
+            z = d['z']
+            if d['s'] is None:
+                m = dist.ComplexAngularCentralGaussianTrainer()._fit(
+                    y=np.ascontiguousarray(z.T), saliency=None, quadratic_form=cp(d['q']), hermitize=bool(d['herm']),
+                    covariance_norm=norm, eigenvalue_floor=d['floor'])
+                e, U = m.covariance_eigenvalues, m.covariance_eigenvectors
+            else:
+                m = dist.ComplexAngularCentralGaussianTrainer()._fit(
+                    y=np.ascontiguousarray(z.T)[None], saliency=cp(d['s'])[None], quadratic_form=cp(d['q'])[None],
+                    hermitize=bool(d['herm']), covariance_norm=norm, eigenvalue_floor=d['floor'])
+                e, U = m.covariance_eigenvalues[0], m.covariance_eigenvectors[0]
+        else:
+            m = dist.ComplexAngularCentralGaussianTrainer().fit(
+                cp(d['y']), hermitize=bool(d['herm']), covariance_norm=norm, eigenvalue_floor=d['floor'], iterations=d['its'])
+            e, U = m.covariance_eigenvalues, m.covariance_eigenvectors
+        got = parse_floats(o)
+        D = len(e)
+        ge = got[:D]
+        gc = got[D:].view(np.complex128).reshape(D, D)
+        e1 = err(np.sort(ge), np.sort(e))
+        e2 = err(gc, cov_from_eig(U, e))
+        # the code contracts z^H U diag(1/e) U^H z in an order that forms B^-1: its quadratic forms carry a relative error
+        # of cond(B) * eps, which every further iteration inherits (DESIGN 2.3: scale includes the condition number)
+        with np.errstate(all='ignore'):
+            cond = float(np.max(e) / max(np.min(e), TINY))
+        tol = 1e-8 + (2e-15 * cond * d['its'] if op == 'cacgfit' else 0.0)
+        return max(e1, e2) <= tol, f'{op} norm={norm}: eigenvalue err {e1:.3g} covariance err {e2:.3g} tol {tol:.3g} (model {ge}, code {e})'
+    if op == 'cacgeigs':
+        norm = ['eigenvalue', 'trace', False][d['norm']]
+        m = dist.ComplexAngularCentralGaussian.from_covariance(np.diag(d['lam']).astype(np.complex128), eigenvalue_floor=d['floor'],
+                                                               covariance_norm=norm)
+        got = np.sort(parse_floats(o))
+        want = np.sort(m.covariance_eigenvalues)
+        ok = bool(np.all(np.abs(got - want) <= 1e-12 * np.maximum(np.abs(got), np.abs(want))))     # element-wise relative: tiny != 0
+        return ok, f'cacgeigs norm={norm} model {got} code {want}'
+    if op == 'removedup':
+        _, want = cb.ComplexBingham._remove_duplicate_eigenvalues(cp(d['lam']), eps=d['eps'])
+        got = parse_floats(o)
+        return _close(got, want, 1e-12), f'removedup model {got} code {want}'
+    if op == 'bingham':
+        got = parse_floats(o)
+        return _close(got, d['est'], 1e-12), f'bingham tail model {got} code {d["est"]} (solver x {d["x"]}, max {d["maxc"]})'
+    if op == 'weight':
+        v, aff, s = d['v'], d['aff'], d['s']
+        F, K, T = aff.shape
+        got = parse_floats(o)
+        if v <= 6:
+            wca = [(-1,), (-3,), (-3, -1), -2, (-1,), (-3,), (-3, -1)][v]
+            want = mmu.estimate_mixture_weight(cp(aff), None if v <= 3 else cp(s), wca)
+            if v == 3:
+                want = np.ravel(want)
+            return _close(got, np.ravel(want)), f'weight variant {v}: err {err(got, np.ravel(want)):.3g}'
+        wca = [(-1,), (-3,), (-3, -1)][v - 7]
+        obs = np.exp(1j * np.arange(F * T * 2).reshape(F, T, 2)) + 0.3
+        emb = np.cos(np.arange(F * T * 2).reshape(F, T, 2) * 1.7) + np.arange(2)
+        m = dist.GCACGMMTrainer().fit(obs, emb, initialization=cp(aff), iterations=1, saliency=cp(s), weight_constant_axis=wca)
+        return _close(got, np.ravel(m.weight)), f'integration weight {wca}: err {err(got, np.ravel(m.weight)):.3g}'
+    if op == 'cacgmmestep':
+        me, z, eps = d['model'], d['z'], d['eps']
+        K, N = me.cacg.covariance_eigenvalues.shape[0], z.shape[0]
+        aff, q, _ = me._predict(np.ascontiguousarray(z.T), affiliation_eps=eps)
+        got = parse_floats(o)
+        ga, gq = got[:K * N].reshape(K, N), got[K * N:].reshape(K, N)
+        with np.errstate(all='ignore'):
+            e_ = me.cacg.covariance_eigenvalues
+            cond = float(np.max(np.max(e_, -1) / np.maximum(np.min(e_, -1), TINY)))
+        if not (finite(aff, q) and np.isfinite(cond)) or cond > 1e12:
+            return None, 'ill-conditioned-model'
+        if np.max(q) > 1e150:
+            # the model takes |s| as sqrt(re^2 + im^2) (np.abs uses hypot): beyond 1e154 the square overflows in Float;
+            # only reached with a zero-scatter class (eigenvalues = tiny), Float-vs-R gap of the trusted base
+            return None, 'quadratic-form-beyond-sqrt-range'
+        tol = 1e-9 + 1e-14 * cond
+        with np.errstate(all='ignore'):
+            e1 = float(np.max(np.abs(np.log(gq) - np.log(q))))        # quadratic forms span many decades: relative
+        e2 = err(ga, aff)
+        return (e1 <= tol and e2 <= tol * 10), f'cacgmm E-step: log quadratic-form err {e1:.3g}, posterior err {e2:.3g}, tol {tol:.3g}'
+    if op == 'emtrace':
+        got = parse_ints(o).tolist()
+        for model in MODELS:
+            tr, flow = code_trace(model, d['n'])
+            if tr != got:
+                return False, f'iteration skeleton of {model}: code trace {tr} != model trace {got} (1 = M-step, 2 = E-step)'
+            if flow is not True:
+                return False, f'data flow of {model}.fit(iterations={d["n"]}): {flow}'
+        return True, ''
+    raise ValueError(op)
+
+
+def code_trace(model, n):
+    """sequence of M-step (1) / E-step (2) calls made by <model>Trainer.fit(iterations=n), observed by wrapping the
+    private methods from the harness process"""
+    from pb_bss import distribution as dist
+    trace = []
+    rng = np.random.default_rng(n)
+    F, T, D, K = 2, 9, 2, 2
+    cls_tr, cls_m, pred = {
+        'gmm': (dist.GMMTrainer, dist.GMM, 'predict'), 'vmfmm': (dist.VMFMMTrainer, dist.VMFMM, 'predict'),
+        'cwmm': (dist.CWMMTrainer, dist.CWMM, 'predict'), 'cacgmm': (dist.CACGMMTrainer, dist.CACGMM, '_predict'),
+        'cbmm': (dist.CBMMTrainer, dist.CBMM, 'predict'), 'gcacgmm': (dist.GCACGMMTrainer, dist.GCACGMM, '_predict'),
+        'vmfcacgmm': (dist.VMFCACGMMTrainer, dist.VMFCACGMM, '_predict')}[model]
+    o_m, o_p = cls_tr._m_step, getattr(cls_m, pred)
+    state = {'last_e': None, 'flow': True, 'init': None}
+
+    def _eq(x, y_):
+        return x is not None and y_ is not None and np.shape(x) == np.shape(y_) and np.array_equal(x, y_)
+
+    def m_step(self, *a, **k):
+        trace.append(1)
+        aff = k.get('affiliation')
+        qf = k.get('quadratic_form', a[-1] if model in ('cacgmm', 'gcacgmm', 'vmfcacgmm') and a else None)
+        if state['last_e'] is None:
+            # first M-step: the start affiliations (and all-one quadratic forms for the cACG-based models)
+            if not _eq(aff, state['init']):
+                state['flow'] = 'first M-step does not receive the initialization'
+            if qf is not None and not np.all(np.asarray(qf) == 1):
+                state['flow'] = 'first M-step does not receive all-one quadratic forms'
+        else:
+            ea, eq_ = state['last_e']
+            if not _eq(aff, ea):
+                state['flow'] = 'M-step affiliation is not the output of the preceding E-step'
+            if qf is not None and not _eq(qf, eq_):
+                state['flow'] = 'M-step quadratic form is not the output of the preceding E-step'
+        return o_m(self, *a, **k)
+
+    def predict(self, *a, **k):
+        trace.append(2)
+        r = o_p(self, *a, **k)
+        state['last_e'] = (r[0], r[1]) if isinstance(r, tuple) else (r, None)
+        return r
+    cls_tr._m_step = m_step
+    setattr(cls_m, pred, predict)
+    try:
+        init = gen_affiliation(rng, F, K, T)
+        state['init'] = init
+        if model in ('gcacgmm', 'vmfcacgmm'):
+            obs = gen_complex(rng, (F, T, D))
+            emb = unit_rows(rng.normal(size=(F, T, 2)))
+            cls_tr().fit(obs, emb, initialization=init, iterations=n)
+        elif model in COMPLEX_MODELS:
+            cls_tr().fit(gen_complex(rng, (F, T, D)), initialization=init, iterations=n)
+        else:
+            cls_tr().fit(rng.normal(size=(F, T, D)), initialization=init, iterations=n,
+                         **({'covariance_type': 'spherical'} if model == 'gmm' else {}))
+    except ALLOWED_EXC:
+        pass
+    finally:
+        cls_tr._m_step = o_m
+        setattr(cls_m, pred, o_p)
+    return trace, state['flow']
